@@ -260,6 +260,24 @@ def grid_search(pid, seed):
     return [f for f in _GRID_CACHE[key].get("failures", []) if f.get("property") == pid]
 
 
+# property -> (module, name, label prefix) of the runtime contract used when a failed obligation's own function has none
+PROP_RUNTIME = {"C01": ("c01", "match_to", "C01:"), "C02": ("c01", "match_to", "C02:"), "C08": ("c08", "index", None),
+                "C09": ("cmods", "best_match", None), "C13": ("c13", "modifiers", None), "C16": ("cmods", "revcomp", "C16:"),
+                "C20": ("cmods", "revcomp", "C20:"), "C17": ("c17", "get_info_records", None)}
+_PRT_CACHE = {}
+
+
+def prop_runtime_search(pid, seed):
+    key = (pid, seed)
+    if key not in _PRT_CACHE:
+        m, n, prefix = PROP_RUNTIME[pid]
+        r = run_native("runtime_check.py", {"module": m, "name": n, "seed": seed + 77, "count": 30000, "time_s": 90, "prefix": prefix}, timeout=900)
+        js = r["json"] or {}
+        js["failures"] = [f for f in js.get("failures", []) if not all(":KNOWN:" in x for x in f.get("failed", ["x"]))]
+        _PRT_CACHE[key] = js
+    return _PRT_CACHE[key]
+
+
 def replay_violation(pid, v, mod, seed):
     """Try to turn a failed obligation into a failing native input."""
     o = v["o"]
@@ -277,6 +295,15 @@ def replay_violation(pid, v, mod, seed):
         data["native_search"] = {"returncode": r["returncode"], "result": r["json"], "stderr": r["stderr"][-1500:]}
         if r["json"] and r["json"].get("failures"):
             found = r["json"]["failures"][0]
+            data["failing_input"] = found
+    if found is None and pid in PROP_RUNTIME:
+        # no runtime form of this function's own contract gave an input: search with the property-level runtime contract
+        # (the bounded stand-in of the property); an input found this way breaks the property on the real code, though not
+        # necessarily through this obligation
+        mine = prop_runtime_search(pid, seed)
+        data["property_level_search"] = {"runtime_contract": list(PROP_RUNTIME[pid]), "cases": mine.get("cases"), "failures": mine.get("failures", [])[:3]}
+        if mine.get("failures"):
+            found = mine["failures"][0]
             data["failing_input"] = found
     if found is None and pid in GRID_PROPS:
         # no runtime form of this contract gave an input: look for a failing command line with this property's oracles
